@@ -71,8 +71,14 @@ class NixSourceCode:
         self.source_path = source_path
 
     @classmethod
-    def from_cst(cls, node: Node) -> NixSourceCode:
-        """Build a source wrapper that keeps trivia for round-trip fidelity."""
+    def from_cst(
+        cls, node: Node, source_code: bytes | str | None = None
+    ) -> NixSourceCode:
+        """Build a source wrapper that keeps trivia for round-trip fidelity.
+
+        *source_code* is the text the CST was parsed from; the root node does not
+        cover leading whitespace, so erroneous input is preserved from it.
+        """
         if node.text is None:
             raise ValueError("Missing source text")
         source_bytes = node.text
@@ -93,7 +99,12 @@ class NixSourceCode:
 
         if contains_error:
             # Preserve the raw text so round-tripping doesn't lose information.
-            raw_text = source_bytes.decode()
+            if isinstance(source_code, bytes):
+                raw_text = source_code.decode()
+            elif isinstance(source_code, str):
+                raw_text = source_code
+            else:
+                raw_text = source_bytes.decode()
             return cls(
                 node=node,
                 expressions=[RawExpression(text=raw_text)],
